@@ -46,6 +46,7 @@ class HistTransport:
         self.queue: list[Any] = []
         self.written: list[bytes] = []
         self.hang = asyncio.Event()
+        self.reconnect_fail: BaseException | None = None
 
     async def write(self, data: bytes, timeout: float | None = None, tags: list[str] | None = None) -> int:
         self.written.append(bytes(data))
@@ -73,6 +74,9 @@ class HistTransport:
         self.is_closed = True
 
     async def reconnect(self, timeout: float | None = None) -> "HistTransport":
+        if self.reconnect_fail is not None:
+            e, self.reconnect_fail = self.reconnect_fail, None
+            raise e
         return self
 
 
@@ -88,6 +92,9 @@ outcome_s = st.one_of(
     st.just(["positive"]), st.just(["positive"]), st.just(["positive"]),
     st.tuples(st.just("negative"), st.sampled_from(sorted(refcodec.KNOWN_NRC - {0x78, 0x21}))).map(list),
     st.just(["timeout"]), st.just(["mismatch"]), st.just(["malformed"]), st.just(["connerr"]),
+    # failures that reach the caller as something other than a UDS exception: the reconnect of a retry is refused, the
+    # transport fails with a non-connection OS error, the ECU never stops sending ResponsePending
+    st.just(["connerr-retry-refused"]), st.just(["oserror"]), st.just(["pending-stuck"]),
     st.tuples(st.just("pending"), st.integers(1, 3), st.sampled_from(["positive", "negative"])).map(list),
 )
 
@@ -164,6 +171,7 @@ def run_history(case: dict[str, Any], dbpath: Path) -> dict[str, Any]:
         await db.insert_scan_run("tcp-lines://192.0.2.9:1")
         tr = HistTransport()
         ecu = ECU(tr, timeout=0.2, max_retry=0)  # type: ignore[arg-type]
+        ecu.retry_wait = 0.001
         ecu.db_handler = db
         session, level = 1, None
 
@@ -199,6 +207,13 @@ def run_history(case: dict[str, Any], dbpath: Path) -> dict[str, Any]:
                     tr.queue = [reply]
                 elif kind == "connerr":
                     tr.queue = [ConnectionResetError("script")]
+                elif kind == "connerr-retry-refused":
+                    tr.queue = [ConnectionResetError("script")]
+                    tr.reconnect_fail = ConnectionRefusedError("script: peer is gone")
+                elif kind == "oserror":
+                    tr.queue = [OSError(113, "script: no route to host")]
+                elif kind == "pending-stuck":
+                    tr.queue = [bytes([0x7F, req_bytes[0], 0x78])] * 125
                 elif kind == "pending":
                     reply = genuine if (o[2] == "positive" and genuine is not None) else bytes([0x7F, req_bytes[0], 0x22])
                     tr.queue = [bytes([0x7F, req_bytes[0], 0x78])] * o[1] + [reply]
@@ -206,7 +221,7 @@ def run_history(case: dict[str, Any], dbpath: Path) -> dict[str, Any]:
                        "mode": "emphasized" if e["analyze"] else "implicit", "logged": e["logging"], "kind": "hang" if hang else kind}
                 rec["sent"].append(exp)
                 try:
-                    await ecu.request(rq, UDSRequestConfig(tags=["ANALYZE"] if e["analyze"] else None))
+                    await ecu.request(rq, UDSRequestConfig(tags=["ANALYZE"] if e["analyze"] else None, max_retry=1 if kind == "connerr-retry-refused" else None))
                     exp["exc"] = None
                 except asyncio.CancelledError:
                     exp["exc"] = "cancelled"
@@ -358,7 +373,7 @@ def check(case: dict[str, Any]) -> list[tuple[str, str]]:
         if rq != e["request"]:
             out.append(("C11/order-or-request-bytes", f"{ctx}: row holds request {rq}, exchange #{e['i']} sent {e['request']}"))
             return out
-        if rp != e["reply"] and not (e["kind"] == "connerr" and rp is None):
+        if rp != e["reply"] and not (e["kind"] in ("connerr", "connerr-retry-refused", "oserror", "pending-stuck") and rp is None):
             out.append((f"C11/reply-bytes/{e['kind']}", f"{ctx}: exchange #{e['i']}: row holds reply {rp}, received {e['reply']}"))
             return out
         if (exc is None) != (e["exc"] is None):
